@@ -39,6 +39,22 @@ Section Comparator.
     vmatch t l la s = O_match -> decorates t s l l' -> vmatch t l' la s = O_match.
   Proof. exact match_monotone_decoration_thm. Qed.
 
+  (* "... and with set/map-directed lists in any order": concretely, a
+     compare-as-map list whose elements have distinct keys may be permuted and
+     extended by further elements with further distinct keys — that is a
+     decoration ([ps]: the (key, element) pairs of the live list, [Tk]: the
+     keyed view of the target list, whose keys are ordinary) *)
+  Theorem C04_as_map_reorder_extend : forall fields ps extra ps' Tk,
+    ps <> [] ->
+    (forall k o, In (k, o) (ps ++ extra) -> obj_key o fields = Ret k) ->
+    nodup_str (map fst (ps ++ extra)) = true ->
+    Permutation.Permutation (ps ++ extra) ps' ->
+    (forall k v, In (k, v) Tk -> plain_key k = true) ->
+    list_to_object (JList (map snd ps)) fields = Ret (JMap ps) /\
+    list_to_object (JList (map snd ps')) fields = Ret (JMap ps') /\
+    decorates (JMap Tk) false (JMap ps) (JMap ps').
+  Proof. exact as_map_reorder_extend_decorates. Qed.
+
   Theorem C04_match_monotone_decoration_fuel : forall n t s l l' la,
     vmatch_f n t l la s = O_match -> decorates t s l l' -> vmatch_f n t l' la s = O_match.
   Proof. exact decoration_f. Qed.
@@ -61,6 +77,11 @@ Section Tail.
     tail cfg t live ann = Some (r, calls) -> calls <> [] ->
     exists d loc, r = TRetry d loc /\ (tc_update cfg = PPatch d \/ tc_update cfg = PRecreate d).
   Proof. exact tail_mutation_is_retry. Qed.
+
+  (* a definite tail prediction is the only outcome any key order allows *)
+  Theorem C04_tail_definite : forall cfg t l ann x,
+    tail cfg t l ann = Some x -> tail_all cfg t l ann = [x].
+  Proof. exact tail_definite. Qed.
 
   Theorem C04_at_most_one_call : forall cfg t live ann r calls,
     tail cfg t live ann = Some (r, calls) ->
@@ -175,7 +196,9 @@ Qed.
 Print Assumptions C04_match_refl_sent.
 Print Assumptions C04_superset_matches.
 Print Assumptions C04_match_monotone_decoration.
+Print Assumptions C04_as_map_reorder_extend.
 Print Assumptions C04_match_monotone_decoration_fuel.
+Print Assumptions C04_tail_definite.
 Print Assumptions C04_met_no_mutation.
 Print Assumptions C04_mutation_is_retry.
 Print Assumptions C04_at_most_one_call.
